@@ -4,7 +4,7 @@
    changes in a way that is not behaviour-preserving (a different comparison, a moved cursor
    update, cursor + size re-introduced, end() reused as the bounds test ...). *)
 From Common Require Import Prelude.
-From C15 Require Import Model Proofs ProofsCodec ProofsInto FactsModel.
+From C15 Require Import Model Proofs ProofsCodec ProofsFixed ProofsInto ProofsLife FactsModel.
 From C15.gen Require Import Facts.
 Local Open Scope Z_scope.
 
@@ -99,4 +99,26 @@ Lemma src_string_read_is_model old r :
 Proof.
   replace gen_str_read with exp_str_read by (vm_compute; reflexivity).
   rewrite exp_str_read_ok. apply (get_into_eq SStr).
+Qed.
+
+(* FixedArrayView (what getWrittenView returns) initialises its member [data] with a share of the
+   viewed allocation, so the ownership flag of the lifetime model is the one of the source; an
+   initialiser that is dropped (a bare pointer into the writer's storage) breaks this *)
+Lemma src_view_owns_share :
+  fav_owns gen_fav_init gen_fav_ptr gen_fixedarray_shared_storage = true /\
+  forall st op, l_step (fav_owns gen_fav_init gen_fav_ptr gen_fixedarray_shared_storage) st op = l_step true st op.
+Proof.
+  assert (H : fav_owns gen_fav_init gen_fav_ptr gen_fixedarray_shared_storage = true) by (vm_compute; reflexivity).
+  split; [exact H|]. intros st op. now apply owning_view_is_model.
+Qed.
+
+(* getWrittenView() as extracted is View(buffer, 0, cursor): fbw_view of the model *)
+Lemma src_written_view_is_model :
+  gen_wview_from_buffer = true /\
+  forall w, fetch (f_bytes w) (seval (fenv w None 0) gen_wview_off) (seval (fenv w None 0) gen_wview_size) = fbw_view w.
+Proof.
+  split; [vm_compute; reflexivity|]. intro w.
+  replace gen_wview_off with (XConst 0) by (vm_compute; reflexivity).
+  replace gen_wview_size with XCursor by (vm_compute; reflexivity).
+  apply exp_wview_ok.
 Qed.
